@@ -27,7 +27,9 @@ import (
 	"fmt"
 	"sort"
 	"strings"
+	"sync"
 	"testing"
+	"unsafe"
 
 	"github.com/ChainSafe/gossamer/internal/verifmc"
 )
@@ -429,7 +431,7 @@ func c28Apply(s *c28State, op c28Op) string {
 		s.prevBumper = s.a.bumper
 		if err != nil {
 			if r != nil {
-				r.Outcome("alloc:error:" + c28ErrClass(err))
+				c28Count(s, "alloc:error:" + c28ErrClass(err))
 			}
 			s.failedOnce = true
 			return ""
@@ -492,7 +494,7 @@ func c28Apply(s *c28State, op c28Op) string {
 			}
 		}
 		if r != nil {
-			r.Outcome(fmt.Sprintf("alloc:ok:%s:block=%d", how, ru))
+			c28Count(s, fmt.Sprintf("alloc:ok:%s:block=%d", how, ru))
 		}
 	case "free":
 		b := s.live[op.arg]
@@ -500,9 +502,9 @@ func c28Apply(s *c28State, op c28Op) string {
 		if err != nil {
 			if r != nil {
 				if s.mustFail || s.failedOnce {
-					r.Outcome("free:error-after-poison")
+					c28Count(s, "free:error-after-poison")
 				} else {
-					r.Outcome("free:valid-rejected:" + c28ErrClass(err)) // statement silent
+					c28Count(s, "free:valid-rejected:" + c28ErrClass(err)) // statement silent
 				}
 			}
 			s.failedOnce = true
@@ -514,14 +516,14 @@ func c28Apply(s *c28State, op c28Op) string {
 		s.live = append(s.live[:op.arg:op.arg], s.live[op.arg+1:]...)
 		s.freed = append(s.freed, b.ptr)
 		if r != nil {
-			r.Outcome("free:ok")
+			c28Count(s, "free:ok")
 		}
 	case "write":
 		b := &s.live[op.arg]
 		s.mem.fill(b.ptr, b.size)
 		b.written, b.fillSeq = true, s.mem.seq
 		if r != nil {
-			r.Outcome("write:ok")
+			c28Count(s, "write:ok")
 		}
 	case "freeinv":
 		p, ok := c28InvalidPtr(s, op.inv)
@@ -537,12 +539,44 @@ func c28Apply(s *c28State, op c28Op) string {
 			return fmt.Sprintf("S6 invalid-free-accepted:%s: free(%d) of an invalid pointer (%s) returned nil", class, p, op.inv)
 		}
 		if r != nil {
-			r.Outcome("free-invalid:" + op.inv + ":" + c28ErrClass(err))
+			c28Count(s, "free-invalid:" + op.inv + ":" + c28ErrClass(err))
 		}
 		s.mustFail = true
 		s.failedOnce = true
 	}
 	return ""
+}
+
+// outcome classes are counted in 64 striped tables (the report's single mutex would serialise
+// the workers); c28Publish copies them into the report single-threaded after the exploration.
+type c28Shard struct {
+	mu sync.Mutex
+	m  map[string]int64
+	_  [40]byte
+}
+
+var c28Shards [64]c28Shard
+
+func c28Count(s *c28State, class string) {
+	sh := &c28Shards[(uintptr(unsafe.Pointer(s))>>6)%64]
+	sh.mu.Lock()
+	if sh.m == nil {
+		sh.m = map[string]int64{}
+	}
+	sh.m[class]++
+	sh.mu.Unlock()
+}
+
+func c28Publish(r *verifmc.Report) {
+	for i := range c28Shards {
+		sh := &c28Shards[i]
+		sh.mu.Lock()
+		for k, n := range sh.m {
+			r.Outcomes[k] += n
+		}
+		sh.m = nil
+		sh.mu.Unlock()
+	}
 }
 
 func c28ErrClass(err error) string {
@@ -621,8 +655,8 @@ func c28Explore(r *verifmc.Report, cfg *c28Cfg) {
 						nw++
 					}
 				}
-				r.Outcome(fmt.Sprintf("S5:written-live-blocks-intact=%d", nw))
-				r.Outcome(fmt.Sprintf("state:live=%d,freed=%d,poison=%v,pages=%s", len(s.live), min(len(s.freed), 3), s.a.poisoned, c28PagesClass(s.mem.pages)))
+				c28Count(s, fmt.Sprintf("S5:written-live-blocks-intact=%d", nw))
+				c28Count(s, fmt.Sprintf("state:live=%d,freed=%d,poison=%v,pages=%s", len(s.live), min(len(s.freed), 3), s.a.poisoned, c28PagesClass(s.mem.pages)))
 			}
 			return d
 		},
@@ -640,6 +674,7 @@ func c28Explore(r *verifmc.Report, cfg *c28Cfg) {
 		return v
 	}
 	h.Explore(r)
+	c28Publish(r)
 }
 
 func c28PagesClass(p uint32) string {
@@ -697,9 +732,9 @@ func TestVerif_C28(t *testing.T) {
 	}
 
 	const max32 = 32 * 1024 * 1024
-	small := []uint32{0, 1, 8, 9, 16, 4096, 65528, max32, max32 + 1}
-	dMain := verifmc.Pick(6, 7)
-	dSide := verifmc.Pick(4, 6)
+	small := []uint32{0, 1, 8, 9, 16, 17, 257, 4096, 65528, 1<<20 + 1, max32, max32 + 1} // 17, 257, 2^20+1: one size per shift step of the power-of-two rounding
+	dMain := verifmc.Pick(5, 6)
+	dSide := verifmc.Pick(4, 5)
 	top := uint32(0xffffffff)
 	cfgs := []*c28Cfg{
 		{name: "base8", heapBase: 8, sizes: small, depth: dMain},
@@ -715,6 +750,10 @@ func TestVerif_C28(t *testing.T) {
 		{name: "top-16", heapBase: top - 16 + 1, sizes: []uint32{0, 8, 16}, depth: dSide},
 		{name: "top-24", heapBase: top - 24 + 1, sizes: []uint32{8, 16}, depth: dSide},
 		{name: "top-1", heapBase: top, sizes: []uint32{8}, depth: 2},
+	}
+	if verifmc.Thorough() {
+		// deeper histories over a reduced size alphabet (three size classes incl. a rounded one)
+		cfgs = append(cfgs, &c28Cfg{name: "base8-deep", heapBase: 8, sizes: []uint32{8, 9, 4096}, depth: 8})
 	}
 	for _, c := range cfgs {
 		c.initPages = c28InitPages(c.heapBase)
